@@ -136,9 +136,11 @@ def sessions(tier: str, seed: int, kinds=vloop.CLIENTS):
                     def dbl(s, state, mode=mode, gap=gap, kind=kind):
                         state["kind"] = kind
                         double_closer(3.0, mode, gap)(s, state)
-                    log, _ = cf.run(kind, cf.Plan(refuse=0), dbl, status_cb=cb, t_end=40.0)
+                    log, raw2 = cf.run(kind, cf.Plan(refuse=0), dbl, status_cb=cb, t_end=40.0)
                     logs.append(log)
                     meta.append((kind, "close", f"twice-{mode}", cb, f"gap={gap}"))
+                    if cb in ("ok", "slow"):
+                        c13.CONF.append((cb, cf.conformance_log(raw2), f"{kind} close twice ({mode}, gap {gap}) callback={cb}"))
         # close() while a reconnection caused by a failing send is in progress (the old receive loop is still alive)
         if kind != "actisense":
             for late in ("write-error-late-eof@0.7", "write-error-late-eof@0.1"):
